@@ -169,15 +169,15 @@ HIST_WRAPS = ["malloc", "free", "calloc", "realloc", "strndup", "strdup", "abort
 FLAG_DEFS = ["-DRFC6531_FOLLOW_RFC5322", "-DRFC6531_FOLLOW_RFC20", "-DLABELS_ALLOW_UNDERSCORE"]
 
 
-def build_hist(backend, extra=False, flags=False, ndebug=False, plain=False):
+def build_hist(backend, extra=False, flags=False, ndebug=False, plain=False, debug=False):
     """history simulator for one backend -> path of executable.  ndebug: the release configuration (-DNDEBUG: assert()
     compiled out of the library; the Makefile's CFLAGS are the user's to set)"""
-    name = "hist-%s%s%s%s%s" % (backend, "-extra" if extra else "", "-flags" if flags else "", "-ndebug" if ndebug else "", "-plain" if plain else "")
+    name = "hist-%s%s%s%s%s" % (backend, "-extra" if extra else "", "-flags" if flags else "", "-ndebug" if ndebug else "", "-plain" if plain else "") + ("-debug" if debug else "")
     ASAN = globals()["ASAN"] if not plain else ["-O2", "-g", "-fno-omit-frame-pointer"]      # plain: optimised, no sanitizer (volume runs)
     d = os.path.join(BUILD, name)
     if os.path.isdir(d):
         shutil.rmtree(d)
-    defs = (["-DEAV_EXTRA"] if extra else []) + (FLAG_DEFS if flags else []) + (ALT_CONFIG if ndebug else [])
+    defs = (["-DEAV_EXTRA"] if extra else []) + (FLAG_DEFS if flags else []) + (ALT_CONFIG if ndebug else []) + (["-D_DEBUG"] if debug else [])     # debug: the Makefile's own `make debug` configuration
     objs = compile_lib(d, backend, ASAN, defs)
     ext = undefined_externals(objs)
     rename_writable_sections(objs)
@@ -244,7 +244,7 @@ def build_locale():
         return None
 
 
-CLI_WRAPS = ["fopen", "abort", "__assert_fail", "exit", "fileno", "fstat", "setlocale", "strerror"]
+CLI_WRAPS = ["fopen", "abort", "__assert_fail", "exit", "fileno", "fstat", "isatty", "setlocale", "strerror"]
 
 
 def build_cli(ndebug=False):
